@@ -154,11 +154,45 @@ pub fn node_stream(seed: u64, histories: usize, cfg: Cfg) -> Sink {
             }
             sink.count("node.msg.fill-to-cap");
         }
+        let mut script: std::collections::VecDeque<Option<String>> = Default::default();
         while i < nops {
             i += 1;
-            let r = if want_drain { 0 } else { rng.below(100) };
+            // now and then a scripted exchange with one connected peer: HAVE, handshake completes,
+            // DONT_HAVE (or a block), refresh, handshake completes — the histories in which answers
+            // contradict each other around a full wantlist
+            if script.is_empty() && !want_drain && !view.conns.is_empty() && rng.chance(1, 30) {
+                let ps: Vec<u64> = view.conns.keys().copied().collect();
+                let p = *rng.pick(&ps);
+                let k = key(&mut rng, &cfg);
+                let second = match rng.below(3) {
+                    0 => format!("msg {p} h= d={k} b= w=N"),
+                    1 => format!("msg {p} h= d= b={k}:{} w=N", k * 100),
+                    _ => format!("msg {p} h={k} d= b= w=N"),
+                };
+                for o in [Some(format!("get {k} 1")), None, Some("@missall".to_string()), None, Some(format!("msg {p} h={k} d= b= w=N")), None, Some(format!("sending {p} ready")), None,
+                          Some(second), Some("tick 30000".to_string()), Some(format!("sending {p} ready")), None, Some(format!("sending {p} ready")), None] {
+                    script.push_back(o);
+                }
+                sink.count("node.scripted-exchange");
+            }
+            let mut scripted = script.pop_front();
+            if scripted == Some(Some("@missall".to_string())) {
+                // every pending blockstore lookup of the node misses
+                let seqs: Vec<u64> = view.pending.iter().filter(|(_, put)| !**put).map(|(s, _)| *s).collect();
+                for seq in seqs {
+                    view.pending.remove(&seq);
+                    let op = format!("complete {seq} miss");
+                    let out = ex.exec(&op);
+                    absorb(&mut view, &out);
+                    sink.push(format!("n {op}"), out, "-".into());
+                }
+                scripted = Some(None);
+            }
+            let r = if want_drain || scripted.is_some() { 0 } else { rng.below(100) };
             want_drain = false;
-            let op: Option<String> = if r < 20 {
+            let op: Option<String> = if let Some(sop) = scripted {
+                sop
+            } else if r < 20 {
                 None // drain, emitted below
             } else if r < 28 {
                 let p = rng.below(cfg.peers as usize) as u64;
@@ -286,7 +320,7 @@ pub fn node_stream(seed: u64, histories: usize, cfg: Cfg) -> Sink {
                     if dead {
                         break;
                     }
-                    want_drain = rng.chance(3, 5);
+                    want_drain = script.is_empty() && rng.chance(3, 5);
                 }
                 None => {
                     let out = ex.exec("drain");
